@@ -195,7 +195,7 @@ Proof.
         destruct w' as [z|rw]; simpl in Hl; [tauto|].
         assert (Vw : val_ok (length h2) h3 (VR rw)).
         { unfold cells_ok in K3. rewrite Forall_forall in K3. apply (K3 (k, VR rw)). eapply cell_get_in; eauto. }
-        simpl in Vw. eapply closed_above_reach; eauto. lia.
+        simpl in Vw. eapply closed_above_reach; [exact C3 | | exact Hl]. lia.
     + (* not a key of the original: then not a key of a fresh instance either *)
       destruct (cell_get k (ocells o')) as [w0|] eqn:G0; auto.
       apply cell_get_none_notin in G1. apply G1. apply FK.
